@@ -13,17 +13,22 @@ var props = map[string]struct {
 	fn    func(*h.Run)
 }{
 	"dbg-lo": {"other", h.DebugLO},
-	"C01": {"exploration", h.C01},
-	"C02": {"exploration", h.C02},
-	"C03": {"exploration", h.C03},
-	"C04": {"exploration", h.C04},
-	"C07": {"exploration", h.C07},
-	"C05": {"exploration", h.C05},
-	"C06": {"exploration", h.C06},
-	"C30": {"exploration", h.C30},
+	"C01":    {"exploration", h.C01},
+	"C02":    {"exploration", h.C02},
+	"C03":    {"exploration", h.C03},
+	"C04":    {"exploration", h.C04},
+	"C05":    {"exploration", h.C05},
+	"C06":    {"exploration", h.C06},
+	"C07":    {"exploration", h.C07},
+	"C12":    {"model_checking", h.C12},
+	"C30":    {"exploration", h.C30},
 }
 
 func main() {
+	if len(os.Args) >= 2 && os.Args[1] == "crash-child" {
+		h.CrashChild()
+		return
+	}
 	if len(os.Args) < 2 {
 		fmt.Println("usage: verif <property> [--replay path]")
 		os.Exit(2)
